@@ -57,6 +57,13 @@ WANTED = [
     ("src/buint/overflowing.rs", None, "overflowing_pow", "overflowing_pow"),
     ("src/buint/checked.rs", None, "checked_pow", "checked_pow"),
     ("src/buint/wrapping.rs", None, "wrapping_pow", "wrapping_pow"),
+    ("src/buint/mod.rs", None, "bits", "bits"),
+    ("src/buint/checked.rs", None, "checked_ilog2", "checked_ilog2"),
+    ("src/buint/checked.rs", None, "iilog", "iilog"),
+    ("src/buint/checked.rs", None, "checked_ilog10", "checked_ilog10"),
+    ("src/buint/checked.rs", None, "checked_ilog", "checked_ilog"),
+    ("src/buint/checked.rs", None, "checked_next_power_of_two", "checked_next_power_of_two"),
+    ("src/buint/checked.rs", None, "checked_next_multiple_of", "checked_next_multiple_of"),
 ]
 
 # `Self` in the files of src/bint/ is $BInt<N> (a struct around `bits: $BUint<N>`)
@@ -69,10 +76,19 @@ CONST_FILES = {"src/bint/overflowing.rs": ["src/bint/consts.rs"]}
 # Methods of $BUint that are NOT re-translated: the call becomes a call of the hand-written model function (qualified name),
 # exactly as tools/rs2v_glue.py does; the tie of the callee to its own source is another obligation (C02: long_mul / glue).
 # (receiver type, method) -> (Gallina head, argument types, result type)
+# flags: "outcome" - the model function returns `outcome T` (it can panic): the call is `of_outcome (..)` in the res monad;
+#        "dbg" - the model function takes the `dbg` flag (overflow checks on / off): the translated function gets a `dbg` parameter
 MODEL_CALLS = {
-    ("buint", "overflowing_mul"): ("Mul.U_overflowing_mul w", ["buint"], ("buint", "bool")),
-    ("buint", "checked_mul"): ("Mul.U_checked_mul w", ["buint"], ("option", "buint")),
-    ("buint", "wrapping_mul"): ("Mul.U_wrapping_mul w", ["buint"], "buint"),
+    ("buint", "overflowing_mul"): ("Mul.U_overflowing_mul w", ["buint"], ("buint", "bool"), ()),
+    ("buint", "checked_mul"): ("Mul.U_checked_mul w", ["buint"], ("option", "buint"), ()),
+    ("buint", "wrapping_mul"): ("Mul.U_wrapping_mul w", ["buint"], "buint", ()),
+    ("buint", "mul"): ("Mul.U_mul dbg w", ["buint"], "buint", ("outcome", "dbg")),
+    ("buint", "sub"): ("AddSub.U_sub dbg w", ["buint"], "buint", ("outcome", "dbg")),
+    ("buint", "div"): ("Div.U_div w", ["buint"], "buint", ("outcome",)),
+    ("buint", "div_rem_unchecked"): ("Div.U_div_rem_unchecked w", ["buint"], ("buint", "buint"), ()),
+    ("buint", "checked_rem"): ("Div.U_checked_rem w", ["buint"], ("option", "buint"), ()),
+    ("buint", "checked_add"): ("AddSub.U_checked_add w", ["buint"], ("option", "buint"), ()),
+    ("buint", "gt"): ("cmp_gt (ucmp {0} {1})", ["buint"], "bool", ()),           # src/int/cmp.rs gt: `match self.cmp(&other) { Greater => true, _ => false }`
 }
 
 # which property's tie file (Proofs/LoopsTie<group>.v) is about which generated function: a function that cannot be
@@ -81,13 +97,13 @@ MODEL_CALLS = {
 GROUPS = {
     "C01": ["overflowing_add", "overflowing_sub", "add_digit", "I_overflowing_add", "I_overflowing_sub", "I_overflowing_neg"],
     "C02": ["long_mul"],
-    "C03": ["div_rem_digit", "last_digit_index"],
     "C05": ["unchecked_shl_internal", "unchecked_shr_pad_internal", "rotate_digits_left", "unchecked_rotate_left", "swap_bytes",
             "reverse_bits"],
     "C06": ["bitand", "bitor", "bitxor", "not_", "eq_", "cmp", "count_ones", "count_zeros", "leading_zeros", "trailing_zeros",
             "leading_ones", "trailing_ones", "is_power_of_two", "is_zero", "is_one", "from_digit", "digits", "from_digits", "bit",
-            "set_bit", "power_of_two"],
-    "C08": ["overflowing_pow", "checked_pow", "wrapping_pow"],
+            "set_bit", "power_of_two", "bits", "checked_next_power_of_two"],
+    "C08": ["overflowing_pow", "checked_pow", "wrapping_pow", "checked_ilog2", "iilog", "checked_ilog10", "checked_ilog"],
+    "C03": ["div_rem_digit", "last_digit_index", "checked_next_multiple_of"],
 }
 LAST_MSG = [""]
 
@@ -282,6 +298,10 @@ class LP(_dig.P):
             if self.peek() == ";":
                 self.eat(";")
             return ["block", b]
+        if v == "use":                                  # `use core::cmp::Ordering;` inside a body: no effect on the translation
+            while self.eat() != ";":
+                pass
+            return self.stmt() if self.peek() != "}" else ["block", []]
         if v in ("for", "loop", "continue"):
             die("unsupported statement: %s" % v)
         if v == "match":
@@ -579,6 +599,8 @@ class Gen:
         self.ntmp = 0
         self.ret = sigs[fname]["ret"]
         self.selfty = sigs[fname]["selfty"]
+        self.uses_dbg = False
+        self.recursive = False
 
     def lookup(self, ty, name, method):
         """the translated function called `name` of the impl of type ty (method: must take self)"""
@@ -810,7 +832,13 @@ class Gen:
         if sig["generics"]:
             self.die("call of %s, which has const generic parameters: not supported" % name)
         x = self.tmp()
-        return pre + ["%s <- %s w N fuel %s ;;" % (x, sig["coq"], " ".join(vs))], x, sig["ret"]
+        fuel = "fuel"
+        if sig["coq"] == self.fname:                   # recursion: on the explicit budget (one unit per nested call)
+            self.recursive = True
+            fuel = "fuel'"
+        if sig["dbg"]:
+            self.uses_dbg = True
+        return pre + ["%s <- %s %sw N %s %s ;;" % (x, sig["coq"], "dbg " if sig["dbg"] else "", fuel, " ".join(vs))], x, sig["ret"]
 
     def mcall(self, e, env):
         _, recv, name, args = e
@@ -829,7 +857,7 @@ class Gen:
             if sg is not None:
                 return self.call_translated(sg, recv, args, env)
             if (t0, name) in MODEL_CALLS:
-                head, ptys, rty = MODEL_CALLS[(t0, name)]
+                head, ptys, rty, flags = MODEL_CALLS[(t0, name)]
                 if len(args) != len(ptys):
                     self.die("call of %s with %d arguments, expected %d" % (name, len(args), len(ptys)))
                 pre, vs = list(p), [v]
@@ -838,7 +866,13 @@ class Gen:
                     unify(t2, pt, "argument of " + name)
                     pre += p2
                     vs.append(v2)
-                return pre, "(%s %s)" % (head, " ".join(vs)), rty
+                if "dbg" in flags:
+                    self.uses_dbg = True
+                call = head.format(*vs) if "{0}" in head else head + " " + " ".join(vs)
+                if "outcome" in flags:
+                    x = self.tmp()
+                    return pre + ["%s <- of_outcome (%s) ;;" % (x, call)], x, rty
+                return pre, "(%s)" % call, rty
             self.die("call of method %s, which is not a translated function" % name)
         if isinstance(t0, TVar):
             self.die("method %s on an integer of undetermined type" % name)
@@ -850,6 +884,10 @@ class Gen:
                 p2, v2, t2 = self.ex(args[0], env)
                 unify(t2, "Digit", "argument of " + name)
                 return p + p2, "(%s w %s %s)" % ({"overflowing_add": "u_ovf_add", "overflowing_sub": "u_ovf_sub"}[name], v, v2), ("Digit", "bool")
+        if t0 == "ExpType" and name == "checked_sub" and len(args) == 1:
+            p2, v2, t2 = self.ex(args[0], env)
+            unify(t2, "ExpType", "argument of checked_sub")
+            return p + p2, "(ix_checked_sub %s %s)" % (v, v2), ("option", "ExpType")
         if t0 == "SDigit" and name in ("overflowing_add", "overflowing_sub") and len(args) == 1:
             p2, v2, t2 = self.ex(args[0], env)
             unify(t2, "SDigit", "argument of " + name)
@@ -921,6 +959,9 @@ class Gen:
                 return pre + ["%s <- %s w %s %s ;;" % (x, {"<<": "dshl", ">>": "dshr"}[op], va, vb)], x, "Digit"
             if t in ("usize", "ExpType") and op == ">>":
                 return pre, "(ix_shr %s %s)" % (va, vb), t
+            if t == "ExpType" and op == "<<":              # u32 << s: the bits shifted out are lost; s >= 32 panics
+                x = self.tmp()
+                return pre + ["%s <- eshl %s %s ;;" % (x, va, vb)], x, t
             self.die("unsupported shift %s on %s" % (op, t))
         t = unify(ta, tb, "operands of " + op)
         if rs(t) == "bool":
@@ -1309,7 +1350,7 @@ def find_fn(src, anchor, name, path):
 
 def parse_sig(name, generics, params, ret, selfty="buint"):
     sig = {"self": False, "params": [], "generics": [], "mut": set(), "selfty": selfty, "rust": name, "callable": True,
-           "mutref": False}
+           "mutref": False, "dbg": False}
     if generics:
         for g in generics.strip()[1:-1].split(","):
             m = re.match(r"^\s*const\s+(\w+)\s*:\s*bool\s*$", g)
@@ -1483,7 +1524,7 @@ def main():
            "   calls of $BUint methods that are not re-translated are calls of the hand-written model (qualified: Mul.U_overflowing_mul ..). *)",
            "From Bnum Require Import Base Prim.",
            "From Bnum.Model Require Import DigitPrims LoopPrims Core Imp.",
-           "From Bnum.Model Require Mul.",
+           "From Bnum.Model Require Mul Div AddSub.",
            "From Bnum.Generated Require Import DigitGen.", "", "Module Loops.", ""]
     # a function that calls an untranslatable function is untranslatable too: iterate to a fixpoint
     texts = {}
@@ -1536,12 +1577,17 @@ def translate_one(path, name, coq, fns, sigs, dsigs, consts):
                 env["self"] = Var(sig["selfty"], "self" in sig["mut"])
             for pn, pt in sig["params"]:
                 g.declare(env, pn, pt, pn in sig["mut"], ctx)
-            txt = g.stmts(ast, env, ctx, 1)
+            txt = g.stmts(ast, env, ctx, 2 if g.recursive else 1)
+            sig["dbg"] = g.uses_dbg                    # known after the first pass (a recursive call needs it)
         argl = "".join(" (%s : %s)" % (n, coq_ty(t)) for n, t in sig["generics"])
         argl += " (self : list Z)" if sig["self"] else ""
         argl += "".join(" (%s : %s)" % (n, coq_ty(t)) for n, t in sig["params"])
         out.append("(* %s: fn %s *)" % (path, name))
-        out.append("Definition %s (w N : Z) (fuel : nat)%s : res (%s) :=\n%s.\n" % (coq, argl, coq_ty(sig["ret"])[1:-1] if isinstance(rs(sig["ret"]), tuple) else coq_ty(sig["ret"]), txt))
+        kw, pre_, post_ = "Definition", "", ""
+        if g.recursive:                                # a recursive fn: structural recursion on the budget
+            kw, pre_, post_ = "Fixpoint", "  match fuel with\n  | O => NoFuel\n  | S fuel' =>\n", "\n  end"
+            argl += " {struct fuel}"
+        out.append("%s %s %s(w N : Z) (fuel : nat)%s : res (%s) :=\n%s%s%s.\n" % (kw, coq, "(dbg : bool) " if sig["dbg"] else "", argl, coq_ty(sig["ret"])[1:-1] if isinstance(rs(sig["ret"]), tuple) else coq_ty(sig["ret"]), pre_, txt, post_))
         return "\n".join(out)
 
 
